@@ -891,7 +891,7 @@ class Array2D(AbstractArray2D):
 
         return cls.no_mask(
             values=cls.flip_hdu_for_ds9(primary_hdu.data.astype("float")),
-            pixel_scales=primary_hdu.header["PIXSCALE"],
+            pixel_scales=cls.pixel_scales_via_header_from(primary_hdu.header),
             origin=origin,
             header=Header(header_sci_obj=primary_hdu.header),
         )
